@@ -2,48 +2,16 @@ package main
 
 import (
 	"bufio"
-
-	"go.pennock.tech/tabular/texttable/decoration"
-
+	"crypto/sha256"
+	"encoding/json"
 	"flag"
 	"fmt"
 	"os"
-)
+	"sort"
+	"strings"
 
-func main() {
-	mode := flag.String("mode", "replay", "replay | gen")
-	in := flag.String("in", "", "ops file (replay)")
-	outDir := flag.String("out", ".", "output directory: lean.in, go.out")
-	flag.Parse()
-	switch *mode {
-	case "replay":
-		f, err := os.Open(*in)
-		if err != nil {
-			fmt.Fprintln(os.Stderr, err)
-			os.Exit(2)
-		}
-		defer f.Close()
-		x := NewExec()
-		li, _ := os.Create(*outDir + "/lean.in")
-		gout, _ := os.Create(*outDir + "/go.out")
-		lw, gw := bufio.NewWriter(li), bufio.NewWriter(gout)
-		for _, l := range preamble() {
-			fmt.Fprintln(lw, l)
-			fmt.Fprintln(gw, "ok")
-		}
-		sc := bufio.NewScanner(f)
-		sc.Buffer(make([]byte, 1<<20), 1<<26)
-		for sc.Scan() {
-			lean, out := x.Do(sc.Text())
-			for i := range lean {
-				fmt.Fprintln(lw, lean[i])
-				fmt.Fprintln(gw, out[i])
-			}
-		}
-		lw.Flush()
-		gw.Flush()
-	}
-}
+	"go.pennock.tech/tabular/texttable/decoration"
+)
 
 // preamble tells the driver the registry's initial content and the default decoration.
 func preamble() []string {
@@ -53,4 +21,133 @@ func preamble() []string {
 		out = append(out, fmt.Sprintf("reginit %s %s", hx(n), showDecor(decoration.Named(n))))
 	}
 	return out
+}
+
+type caseInfo struct {
+	Case       int      `json:"case"`
+	FirstLine  int      `json:"first_line"` // 1-based line in lean.in / go.out
+	LastLine   int      `json:"last_line"`
+	Violations []string `json:"violations,omitempty"`
+	Known      []string `json:"known,omitempty"`
+	Panics     int      `json:"panics,omitempty"`
+}
+
+type report struct {
+	Property    string         `json:"property"`
+	Stream      string         `json:"stream"`
+	Seed        int64          `json:"seed"`
+	Cases       int            `json:"cases"`
+	Distinct    int            `json:"distinct_nontrivial"`
+	Lines       int            `json:"lines"`
+	Stats       map[string]int `json:"stats"`
+	Samples     [][]string     `json:"samples"`
+	Violating   []caseInfo     `json:"violating"`
+	KnownHits   map[string]int `json:"known_hits"`
+	CaseIndex   []caseInfo     `json:"-"`
+	OracleRules string         `json:"oracle"`
+}
+
+func main() {
+	mode := flag.String("mode", "gen", "replay | gen")
+	in := flag.String("in", "", "ops file (replay)")
+	outDir := flag.String("out", ".", "output directory: lean.in, go.out, go.ops, report.json, cases.idx")
+	prop := flag.String("prop", "", "property stream, e.g. C05")
+	seed := flag.Int64("seed", 1, "VERIF_SEED")
+	n := flag.Int("n", 100, "number of cases")
+	from := flag.Int("from", 0, "first case number")
+	flag.Parse()
+	li, _ := os.Create(*outDir + "/lean.in")
+	gout, _ := os.Create(*outDir + "/go.out")
+	gops, _ := os.Create(*outDir + "/go.ops")
+	lw, gw, ow := bufio.NewWriterSize(li, 1<<20), bufio.NewWriterSize(gout, 1<<20), bufio.NewWriterSize(gops, 1<<20)
+	defer func() { lw.Flush(); gw.Flush(); ow.Flush() }()
+	lineNo := 0
+	emit := func(lean, out []string) {
+		for i := range lean {
+			fmt.Fprintln(lw, lean[i])
+			fmt.Fprintln(gw, out[i])
+			lineNo++
+		}
+	}
+	pre := preamble()
+	ok := make([]string, len(pre))
+	for i := range ok {
+		ok[i] = "ok"
+	}
+	emit(pre, ok)
+	x := NewExec()
+	switch *mode {
+	case "replay":
+		f, err := os.Open(*in)
+		if err != nil {
+			fmt.Fprintln(os.Stderr, err)
+			os.Exit(2)
+		}
+		defer f.Close()
+		sc := bufio.NewScanner(f)
+		sc.Buffer(make([]byte, 1<<20), 1<<26)
+		g := &Gen{x: x, r: &rng{1}, stats: map[string]int{}}
+		for sc.Scan() {
+			l := sc.Text()
+			if strings.HasPrefix(l, "#") {
+				continue
+			}
+			g.do(l)
+		}
+		emit(g.leanIn, g.goOut)
+		// the property oracle of the recorded stream, if named in the file header
+		if *prop != "" {
+			if st, okk := streams[*prop]; okk && st.oracleOnly != nil {
+				v, k := st.oracleOnly(g)
+				rep := map[string]interface{}{"violations": v, "known": k}
+				b, _ := json.MarshalIndent(rep, "", " ")
+				os.WriteFile(*outDir+"/oracle.json", b, 0o644)
+			}
+		}
+	case "gen":
+		st, okk := streams[*prop]
+		if !okk {
+			fmt.Fprintln(os.Stderr, "unknown stream", *prop)
+			os.Exit(2)
+		}
+		rep := report{Property: st.property, Stream: *prop, Seed: *seed, Stats: map[string]int{}, KnownHits: map[string]int{}, OracleRules: st.oracleDoc}
+		seen := map[[32]byte]bool{}
+		idx, _ := os.Create(*outDir + "/cases.idx")
+		iw := bufio.NewWriter(idx)
+		defer iw.Flush()
+		for c := *from; c < *from+*n; c++ {
+			g := &Gen{x: x, r: &rng{mixSeed(*seed, *prop, c)}, stats: rep.Stats}
+			g.do(fmt.Sprintf("case %d", c))
+			viol, known, nontrivial := st.run(g, c)
+			first := lineNo + 1
+			emit(g.leanIn, g.goOut)
+			for _, l := range g.goOps {
+				fmt.Fprintln(ow, l)
+			}
+			fmt.Fprintf(iw, "%d %d %d\n", c, first, lineNo)
+			h := sha256.Sum256([]byte(strings.Join(g.goOps[1:], "\n")))
+			if nontrivial && !seen[h] {
+				seen[h] = true
+				rep.Distinct++
+			}
+			rep.Cases++
+			if len(rep.Samples) < 3 && nontrivial && len(g.goOps) < 60 {
+				rep.Samples = append(rep.Samples, g.goOps)
+			}
+			for _, k := range known {
+				rep.KnownHits[k]++
+			}
+			if len(viol) > 0 {
+				rep.Violating = append(rep.Violating, caseInfo{Case: c, FirstLine: first, LastLine: lineNo, Violations: viol, Known: known})
+			}
+		}
+		rep.Lines = lineNo
+		keys := make([]string, 0, len(rep.Stats))
+		for k := range rep.Stats {
+			keys = append(keys, k)
+		}
+		sort.Strings(keys)
+		b, _ := json.MarshalIndent(rep, "", " ")
+		os.WriteFile(*outDir+"/report.json", b, 0o644)
+	}
 }
